@@ -27,11 +27,12 @@ def conclusionClosureT (buckets : List (List PA)) (interp : List Nat) : ClosT :=
     let u := updateTerms val interp
     if !u.2 then ClosT.noUpdate else closureLoopT buckets u.1
 
-/-- `add_ng` in `Equiv` mode -/
+/-- `add_ng` in `Equiv` mode (repaired indexing: bucket `k` holds the nogoods of size `k`, the
+empty nogood is stored in bucket 0; `NgStore.addNg` is the three-mode model, `C18.search_addNg_eq`
+the tie between the two) -/
 def addNg (buckets : List (List PA)) (g : PA) : List (List PA) :=
   let k := size g
-  if k == 0 then buckets else
-  buckets.mapIdx (fun i b => if i == k - 1 then (if b.contains g then b else b ++ [g]) else b)
+  buckets.mapIdx (fun i b => if i == k then (if b.contains g then b else b ++ [g]) else b)
 
 /-- `apply_interpretation(ac, interp)` -/
 def applyInterp (s : Store) (interp : List Nat) : List Nat → Store × List Nat
@@ -121,6 +122,6 @@ partial def ngLoop (n : Nat) (ac : List Nat) (stable : Bool) (st : NgSt) : NgSt 
 /-- `stable_nogood(Heuristic::Simple)` / `two_val_nogood_channel(Simple)` -/
 def ngAll (s : Store) (n : Nat) (ac : List Nat) (stable : Bool) : Store × List (List Nat) × List (List Nat) :=
   let g := groundedLoop StoreRA (n + 1) s ac
-  let r := ngLoop n ac stable { s := g.1, cur := g.2, buckets := List.replicate n [], stack := [], hist := [],
+  let r := ngLoop n ac stable { s := g.1, cur := g.2, buckets := List.replicate (n + 1) [], stack := [], hist := [],
                                 backtrack := false, choice := false, out := [], trace := [] }
   (r.s, r.out, r.trace)
